@@ -133,6 +133,22 @@ theorem star_import_set_plain (S : TSet) (o : NsObj) (hk : o.kind = .plain) :
     (getStar S o).map (·.1) = o.callables.map (·.1) := by
   simp [getStar, hk, Function.comp_def]
 
+/-- `star_import_set`, all kinds at once: the defs written inside the tag, then `starMembers` -/
+theorem star_import_set (S : TSet) (o : NsObj) :
+    (getStar S o).map (·.1) = o.callables.map (·.1) ++ starMembers S o := by
+  unfold starMembers
+  cases hk : o.kind with
+  | tmpl u =>
+    cases ht : setLookup S u with
+    | found t => simpa [ht] using star_import_set_template S o u t hk ht
+    | notFound => simp [getStar, hk, ht, Function.comp_def]
+    | invalid => simp [getStar, hk, ht, Function.comp_def]
+  | module m =>
+    cases hm : modLookup S m with
+    | some pm => simpa [hm] using star_import_set_module S o m pm hk hm
+    | none => simp [getStar, hk, hm, Function.comp_def]
+  | plain => simpa using star_import_set_plain S o hk
+
 /-- `populate` with `*` updates the dictionary with these pairs in order -/
 theorem star_import_populate (S : TSet) (id : Nat) (o : NsObj) (d : List (Str × Value)) (s : St)
     (ho : s.nss[id]? = some o) :
